@@ -406,9 +406,9 @@ func init() {
 		Required: []string{"units", "valid.docs", "fuzz.valid", "fuzz.invalid", "hook.depth.checks", "mutant.mismatched-closer", "mutant.extra-closer", "mutant.missing-comma", "mutant.missing-colon", "mutant.non-string-key", "probes"},
 		Streams: []fw.Stream{
 			{Name: "probes", Quick: len(c10Probes), Thorough: len(c10Probes), Run: c10Probe},
-			{Name: "valid", Quick: 300000, Thorough: 8000000, Run: c10Valid},
-			{Name: "fuzz", Quick: 300000, Thorough: 8000000, Run: c10Fuzz},
-			{Name: "mutant", Quick: 300000, Thorough: 8000000, Run: c10Mutant},
+			{Name: "valid", Quick: 300000, Thorough: 48000000, Run: c10Valid},
+			{Name: "fuzz", Quick: 300000, Thorough: 48000000, Run: c10Fuzz},
+			{Name: "mutant", Quick: 300000, Thorough: 48000000, Run: c10Mutant},
 		},
 	})
 }
